@@ -192,6 +192,11 @@ func ScanSnapshot(in io.Reader, prefix io.Writer, opts *Opts) (*Snapshot, []byte
 			}
 		}
 	}
+	if b := r.buffered(); suffix == nil && len(b) != 0 {
+		// The scan ended (e.g. on the closing separator of a race report)
+		// while bytes were already read ahead; hand them back to the caller.
+		suffix = append([]byte{}, b...)
+	}
 	if s.Goroutines != nil {
 		if opts.NameArguments {
 			nameArguments(s.Goroutines)
